@@ -29,6 +29,8 @@ def instances(tier):
     q += [("golomb_bounded", [4, 7], "solve"), ("golomb_bounded", [5, 11], "solve"), ("golomb_bounded", [5, 13], "solve"),
           ("golomb_bounded", [6, 17], "solve")]
     q += [("bibd", [6, 10, 5, 3, 2], "solve"), ("bibd", [7, 7, 3, 3, 1], "solve")]
+    # parameter sets that violate the counting identities v*r = b*k or l*(v-1) = r*(k-1): no design exists
+    q += [("bibd", [2, 3, 2, 1, 1], "solve"), ("bibd", [3, 4, 2, 2, 1], "solve"), ("bibd", [4, 4, 2, 2, 1], "solve")]
     q += [("schur", [n], "solve") for n in (3, 5, 7, 9, 13, 14)]
     q += [("knapsack", KNAP, "max"), ("circuit", [2], "solve"), ("circuit", [3], "solve"), ("circuit", [4], "solve"),
           ("circuit", [5], "solve"), ("circuit", [6], "solve"), ("tsp", [TSP4], "min"), ("tsp", [TSP5], "min"), ("tsp", [TSP4A], "min"), ("tsp", [TSP5A], "min"),
@@ -36,7 +38,7 @@ def instances(tier):
     if tier == "thorough":
         q += [("queens", [9], "solve"), ("queens", [10], "solve"), ("magic_square", [4], "solve"), ("golomb", [7], "min"),
               ("golomb", [8], "min"), ("quasigroup5", [8], "solve"), ("magic_sequence", [100], "solve"), ("schur", [11], "solve"),
-              ("bibd", [8, 14, 7, 4, 3], "solve"), ("circuit", [7], "solve"), ("sts", [8], "solve")]
+              ("bibd", [8, 14, 7, 4, 3], "solve"), ("bibd", [7, 8, 4, 3, 2], "solve"), ("circuit", [7], "solve"), ("sts", [8], "solve")]
     return q
 
 
